@@ -1,11 +1,11 @@
 """Checked contracts for ECAgent/Core.py.  Predicates are executable Python (symbolic + concrete reading)."""
 from pyvc.specs import contract, fields_of, lemma, implies, iff, index_of, order_of, key_at, is_fresh, \
-    same_elems, same_dict, typeof, is_none
+    same_elems, same_dict, typeof, is_none, same
 
 # ------------------------------------------------------------------------------------------------ field types
 fields_of('Model', environment='ref:Environment', systems='ref:SystemManager', random='ref:Random',
           logger='ref:Logger', _status='int')
-fields_of('Component', agent='any', model='ref:Model')
+fields_of('Component', agent='ref:Agent', model='ref:Model')
 fields_of('_MetaAgent', _id='str', _components='dict[cls,ref:Component]', _tag='int')
 fields_of('Agent', id='str', model='ref:Model', components='dict[cls,ref:Component]', tag='int')
 fields_of('System', id='str', model='ref:Model', priority='int', frequency='int', start='int', end='int')
@@ -390,3 +390,440 @@ contract('Core.Environment.get_agents',
          locals={'matching_agents': 'list[ref:Agent]'},
          cases=[dict(name='tag', params={'tag': 'int'}), dict(name='notag', params={'tag': 'none'})],
          props=['C13'])
+
+
+# ------------------------------------------------------------------------------------------------ dict views
+def dict_added(D, D0, k, v):
+    """D is D0 with the new key k -> v appended last; every other entry and the relative order unchanged."""
+    return (k in D and same(D[k], v) and len(D) == len(D0) + 1
+            and all(j in D and same(D[j], D0[j]) and order_of(D, j) < order_of(D, k) for j in D0)
+            and all(implies(order_of(D0, a) < order_of(D0, b), order_of(D, a) < order_of(D, b))
+                    for a in D0 for b in D0)
+            and all(j in D0 or j == k for j in D))
+
+
+def dict_removed(D, D0, k):
+    """D is D0 without key k; every other entry and the relative order unchanged."""
+    return (k not in D and len(D) == len(D0) - 1
+            and all(j == k or (j in D and same(D[j], D0[j])) for j in D0)
+            and all(implies(order_of(D0, a) < order_of(D0, b), order_of(D, a) < order_of(D, b))
+                    for a in D for b in D)
+            and all(j in D0 for j in D))
+
+
+# ------------------------------------------------------------------------------------------------ Agent (instance)
+def Agent_rep(self):
+    """Every component is stored under its exact type."""
+    return all(typeof(self.components[T]) is T for T in self.components)
+
+
+def agent_init_post(self, id, model, tag, old):
+    return (self.id == id and self.model is model and len(self.components) == 0
+            and is_fresh(self.components, old))
+
+
+def agent_init_tag(self, id, model, tag, old):
+    """C20: explicit tag wins (also 0); otherwise the current default tag of the agent's own class."""
+    return self.tag == (typeof(self).tag if tag is None else tag)
+
+
+contract('Core.Agent.__init__',
+         params={'self': 'ref:Agent', 'id': 'str', 'model': 'ref:Model', 'tag': 'int'},
+         ensures={'C20': [agent_init_post, agent_init_tag], 'C04': [agent_init_post], 'C03': [agent_init_post]},
+         modifies=['self.id', 'self.model', 'field:self.components', 'self.tag', 'new:dict[cls,ref:Component]'],
+         cases=[dict(name='tag', params={'tag': 'int'}), dict(name='notag', params={'tag': 'none'})],
+         use='inline', props=['C20'])
+
+
+def add_component_post(self, component, old):
+    return dict_added(self.components, old.self.components, typeof(component), component)
+
+
+def add_component_dup(self, component, old):
+    return typeof(component) in old.self.components
+
+
+contract('Core.Agent.add_component',
+         params={'self': 'ref:Agent', 'component': 'ref:Component'},
+         requires=[Agent_rep],
+         ensures={'C03': [add_component_post, Agent_rep], 'C20': [add_component_post]},
+         raises={'ValueError': dict(when=add_component_dup)},
+         modifies=['self.components'], props=['C03', 'C20'])
+
+
+def remove_component_post(self, component_type, old):
+    return dict_removed(self.components, old.self.components, component_type)
+
+
+def remove_component_absent(self, component_type, old):
+    return component_type not in old.self.components
+
+
+contract('Core.Agent.remove_component',
+         params={'self': 'ref:Agent', 'component_type': 'cls'},
+         requires=[Agent_rep],
+         ensures={'C03': [remove_component_post, Agent_rep], 'C20': [remove_component_post]},
+         raises={'ComponentNotFoundError': dict(when=remove_component_absent)},
+         modifies=['self.components'], props=['C03', 'C20'])
+
+
+def get_component_post(self, component_type, throw_error, result):
+    return ((component_type in self.components and result is self.components[component_type])
+            or (component_type not in self.components and is_none(result)))
+
+
+def get_component_absent(self, component_type, throw_error, old):
+    return throw_error and component_type not in old.self.components
+
+
+contract('Core.Agent.get_component',
+         params={'self': 'ref:Agent', 'component_type': 'cls', 'throw_error': 'bool'}, returns='ref?:Component',
+         ensures={'C03': [get_component_post], 'C13': [get_component_post]},
+         raises={'ComponentNotFoundError': dict(when=get_component_absent)},
+         use='inline', props=['C03'])
+contract('Core.Agent.__getitem__', params={'self': 'ref:Agent', 'item': 'cls'}, returns='ref?:Component',
+         use='inline', props=['C03'])
+contract('Core.Agent.__contains__', params={'self': 'ref:Agent', 'item': 'cls'}, returns='bool',
+         use='inline', props=['C13'])
+contract('Core.Agent.__len__', params={'self': 'ref:Agent'}, returns='int', use='inline', props=['C03'])
+
+
+# ------------------------------------------------------------------------------------------------ agent classes (C20)
+def meta_init_post(cls, name, bases, properties, old):
+    return (len(cls._components) == 0 and is_fresh(cls._components, old) and cls._tag == 0 and cls._id == name)
+
+
+contract('Core._MetaAgent.__init__',
+         params={'cls': 'ref:_MetaAgent', 'name': 'str', 'bases': 'any', 'properties': 'any'},
+         ensures={'C20': [meta_init_post]},
+         modifies=['cls._id', 'field:cls._components', 'cls._tag', 'new:dict[cls,ref:Component]'],
+         props=['C20'])
+
+
+def class_add_post(self, component, old):
+    return dict_added(self._components, old.self._components, typeof(component), component)
+
+
+def class_add_dup(self, component, old):
+    return typeof(component) in old.self._components
+
+
+contract('Core._MetaAgent.add_class_component',
+         params={'self': 'ref:_MetaAgent', 'component': 'ref:Component'},
+         ensures={'C20': [class_add_post]},
+         raises={'ValueError': dict(when=class_add_dup)},
+         modifies=['self._components'], props=['C20'])
+
+
+def class_remove_post(self, component_type, old):
+    return dict_removed(self._components, old.self._components, component_type)
+
+
+def class_remove_absent(self, component_type, old):
+    return component_type not in old.self._components
+
+
+contract('Core._MetaAgent.remove_class_component',
+         params={'self': 'ref:_MetaAgent', 'component_type': 'cls'},
+         ensures={'C20': [class_remove_post]},
+         raises={'ComponentNotFoundError': dict(when=class_remove_absent)},
+         modifies=['self._components'], props=['C20'])
+
+
+def class_get_post(self, component_type, throw_error, result):
+    return ((component_type in self._components and result is self._components[component_type])
+            or (component_type not in self._components and is_none(result)))
+
+
+def class_get_absent(self, component_type, throw_error, old):
+    return throw_error and component_type not in old.self._components
+
+
+contract('Core._MetaAgent.get_class_component',
+         params={'self': 'ref:_MetaAgent', 'component_type': 'cls', 'throw_error': 'bool'},
+         returns='ref?:Component',
+         ensures={'C20': [class_get_post]},
+         raises={'ComponentNotFoundError': dict(when=class_get_absent)},
+         props=['C20'])
+
+
+def class_has_post(self, args, result):
+    return result == all(args[j] in self._components for j in range(len(args)))
+
+
+def class_has_inv(self, args, i):
+    return 0 <= i and i <= len(args) and all(args[j] in self._components for j in range(0, i))
+
+
+contract('Core._MetaAgent.has_class_component',
+         params={'self': 'ref:_MetaAgent', '*args': 'list[cls]'}, returns='bool',
+         ensures={'C20': [class_has_post]},
+         loops={0: dict(invariant=[class_has_inv], index='i', modifies=[])},
+         pure=True, props=['C20'])
+
+
+def class_getitem_post(self, item, result):
+    return ((item in self._components and result is self._components[item])
+            or (item not in self._components and is_none(result)))
+
+
+contract('Core._MetaAgent.__getitem__', params={'self': 'ref:_MetaAgent', 'item': 'cls'},
+         returns='ref?:Component', ensures={'C20': [class_getitem_post]}, props=['C20'])
+
+
+def class_len_post(self, result):
+    return result == len(self._components)
+
+
+contract('Core._MetaAgent.__len__', params={'self': 'ref:_MetaAgent'}, returns='int',
+         ensures={'C20': [class_len_post]}, props=['C20'])
+
+
+def class_contains_post(self, item, result):
+    return result == (item in self._components)
+
+
+contract('Core._MetaAgent.__contains__', params={'self': 'ref:_MetaAgent', 'item': 'cls'}, returns='bool',
+         ensures={'C20': [class_contains_post]}, modifies=['new:list[cls]'], props=['C20'])
+
+
+def tag_get_post(cls, result):
+    return result == cls._tag
+
+
+def tag_set_post(cls, val):
+    return cls._tag == val
+
+
+def components_get_post(cls, result):
+    return result is cls._components
+
+
+contract('Core._MetaAgent.tag@get', params={'cls': 'ref:_MetaAgent'}, returns='int',
+         ensures={'C20': [tag_get_post]}, use='inline', props=['C20'])
+contract('Core._MetaAgent.tag@set', params={'cls': 'ref:_MetaAgent', 'val': 'int'},
+         ensures={'C20': [tag_set_post]}, modifies=['cls._tag'], use='inline', props=['C20'])
+contract('Core._MetaAgent.components@get', params={'cls': 'ref:_MetaAgent'},
+         returns='dict[cls,ref:Component]', ensures={'C20': [components_get_post]}, use='inline', props=['C20'])
+
+
+# ------------------------------------------------------------------------------------------------ component pools
+def pool_ext(P, P0, T, c):
+    """Pool T is the old pool T (or nothing) with c appended."""
+    return (T in P and len(P[T]) == (len(P0[T]) if T in P0 else 0) + 1 and P[T][len(P[T]) - 1] is c
+            and (T not in P0 or all(P[T][j] is P0[T][j] for j in range(len(P0[T])))))
+
+
+def pool_same(P, P0, T):
+    return (T in P) == (T in P0) and (T not in P0 or same_elems(P[T], P0[T]))
+
+
+def pool_cut(P, P0, T, c):
+    """Pool T is the old pool T without (the first occurrence of) c; it disappears when it becomes empty."""
+    return ((len(P0[T]) == 1 and T not in P)
+            or (len(P0[T]) > 1 and T in P and len(P[T]) == len(P0[T]) - 1
+                and all(P[T][j] is P0[T][j] for j in range(0, index_of(P0[T], c)))
+                and all(P[T][j] is P0[T][j + 1] for j in range(index_of(P0[T], c), len(P[T])))))
+
+
+def Pools_distinct(self):
+    """Every component type has its own list object (M5)."""
+    P = self.component_pools
+    return all(P[T1] is not P[T2] for T1 in P for T2 in P if T1 is not T2)
+
+
+def register_post(self, component, old):
+    P = self.component_pools
+    P0 = old.self.component_pools
+    T = typeof(component)
+    return (pool_ext(P, P0, T, component)
+            and all(T2 is T or pool_same(P, P0, T2) for T2 in P0)
+            and all(T2 is T or T2 in P0 for T2 in P)
+            and all(T2 is T or P[T2] is P0[T2] for T2 in P0)
+            and (T not in P0 or P[T] is P0[T])
+            and (T in P0 or is_fresh(P[T], old)))
+
+
+def register_dup(self, component, old):
+    return typeof(component) in old.self.component_pools and \
+        component in old.self.component_pools[typeof(component)]
+
+
+contract('Core.SystemManager.register_component',
+         params={'self': 'ref:SystemManager', 'component': 'ref:Component'},
+         requires=[Pools_distinct],
+         ensures={'C03': [register_post, Pools_distinct]},
+         raises={'KeyError': dict(when=register_dup)},
+         modifies=['self.component_pools', 'store:list[ref:Component]', 'new:list[ref:Component]'],
+         props=['C03'])
+
+
+def deregister_post(self, component, old):
+    P = self.component_pools
+    P0 = old.self.component_pools
+    T = typeof(component)
+    return (pool_cut(P, P0, T, component)
+            and all(T2 is T or pool_same(P, P0, T2) for T2 in P0)
+            and all(T2 in P0 for T2 in P)
+            and all(T2 not in P or P[T2] is P0[T2] for T2 in P0))
+
+
+def deregister_unknown(self, component, old):
+    return typeof(component) not in old.self.component_pools or \
+        component not in old.self.component_pools[typeof(component)]
+
+
+contract('Core.SystemManager.deregister_component',
+         params={'self': 'ref:SystemManager', 'component': 'ref:Component'},
+         requires=[Pools_distinct],
+         ensures={'C03': [deregister_post, Pools_distinct]},
+         raises={'KeyError': dict(when=deregister_unknown)},
+         modifies=['self.component_pools', 'store:list[ref:Component]'],
+         props=['C03'])
+
+
+def get_components_post(self, component_type, throw_error, result):
+    P = self.component_pools
+    return ((component_type in P and result is P[component_type])
+            or (component_type not in P and is_none(result)))
+
+
+def get_components_absent(self, component_type, throw_error, old):
+    return throw_error and component_type not in old.self.component_pools
+
+
+contract('Core.SystemManager.get_components',
+         params={'self': 'ref:SystemManager', 'component_type': 'cls', 'throw_error': 'bool'},
+         returns='list[ref:Component]?',
+         ensures={'C03': [get_components_post]},
+         raises={'KeyError': dict(when=get_components_absent)},
+         props=['C03'])
+
+
+# ------------------------------------------------------------------------------------------------ C03: PoolsMirror
+def pool_owner_ok(c, T, A):
+    """c (listed under T) is the T-component of its holder, who is resident."""
+    return (typeof(c) is T and c.agent.id in A and A[c.agent.id] is c.agent
+            and T in c.agent.components and c.agent.components[T] is c)
+
+
+def PoolsMirror(m):
+    """The component listings of model m mirror exactly the components of the resident agents (M1-M6)."""
+    P = m.systems.component_pools
+    A = m.environment.agents
+    return (all(len(P[T]) > 0 for T in P)
+            and all(pool_owner_ok(P[T][i], T, A) for T in P for i in range(len(P[T])))
+            and all(T in P and index_of(P[T], A[k].components[T]) < len(P[T])
+                    for k in A for T in A[k].components if T is not PositionComponent)
+            and all(order_of(A, P[T][i].agent.id) < order_of(A, P[T][j].agent.id)
+                    for T in P for i in range(len(P[T])) for j in range(i + 1, len(P[T])))
+            and all(P[T1] is not P[T2] for T1 in P for T2 in P if T1 is not T2)
+            and all(A[k].components[T].agent is A[k] and typeof(A[k].components[T]) is T
+                    for k in A for T in A[k].components))
+
+
+def env_linked(self):
+    return self.model.environment is self
+
+
+def joiner_ok(self, agent):
+    """The joining agent holds its own components under their exact types, none of them a position component."""
+    C = agent.components
+    return all(C[T].agent is agent and typeof(C[T]) is T and T is not PositionComponent for T in C)
+
+
+def env_mirror(self):
+    return PoolsMirror(self.model)
+
+
+def env_add_post(self, agent, old):
+    return dict_added(self.agents, old.self.agents, agent.id, agent)
+
+
+def env_add_pools(self, agent, old):
+    """Whole view of the listings: every component type of the joiner gains exactly that component at the end."""
+    P = self.model.systems.component_pools
+    P0 = old.self.model.systems.component_pools
+    C = agent.components
+    return (all(pool_ext(P, P0, T, C[T]) for T in C)
+            and all(T in C or pool_same(P, P0, T) for T in P0)
+            and all(T in C or T in P0 for T in P))
+
+
+def env_add_dup(self, agent, old):
+    return agent.id in old.self.agents
+
+
+def env_add_inv(self, agent, old, p):
+    P = self.model.systems.component_pools
+    P0 = old.self.model.systems.component_pools
+    C = agent.components
+    return (0 <= p and p <= len(C)
+            and dict_added(self.agents, old.self.agents, agent.id, agent)
+            and all(pool_ext(P, P0, key_at(C, j), C[key_at(C, j)]) for j in range(0, p))
+            and all(pool_same(P, P0, key_at(C, j)) for j in range(p, len(C)))
+            and all(T in C or pool_same(P, P0, T) for T in P0)
+            and all(T in C or T in P0 for T in P)
+            and all(T in P and P[T] is P0[T] for T in P0)
+            and all(T in P0 or is_fresh(P[T], old) for T in P)
+            and all(P[T1] is not P[T2] for T1 in P for T2 in P if T1 is not T2))
+
+
+ENV_POOL_MODS = ['self.model.systems.component_pools', 'store:list[ref:Component]', 'new:list[ref:Component]']
+
+contract('Core.Environment.add_agent',
+         params={'self': 'ref:Environment', 'agent': 'ref:Agent'},
+         requires=[Env_rep, env_linked, joiner_ok, env_mirror],
+         ensures={'C04': [env_add_post, Env_rep], 'C03': [env_add_pools, env_mirror]},
+         raises={'DuplicateAgentError': dict(when=env_add_dup)},
+         modifies=['self.agents'] + ENV_POOL_MODS,
+         loops={0: dict(invariant=[(env_add_inv, ['C03', 'C04'])], index='p', modifies=ENV_POOL_MODS)},
+         props=['C03', 'C04'])
+
+
+def env_remove_post(self, a_id, old):
+    return dict_removed(self.agents, old.self.agents, a_id)
+
+
+def env_remove_pools(self, a_id, old):
+    """Whole view of the listings: every component type of the leaver loses exactly that component."""
+    P = self.model.systems.component_pools
+    P0 = old.self.model.systems.component_pools
+    C = old.self.agents[a_id].components
+    return (all(pool_cut(P, P0, T, C[T]) for T in C)
+            and all(T in C or pool_same(P, P0, T) for T in P0)
+            and all(T in P0 for T in P))
+
+
+def env_remove_unknown(self, a_id, old):
+    return a_id not in old.self.agents
+
+
+def leaver_ok(self, a_id):
+    """Inside a plain environment no resident carries a position component (spatial worlds detach it first)."""
+    return a_id not in self.agents or all(T is not PositionComponent for T in self.agents[a_id].components)
+
+
+def env_remove_inv(self, a_id, old, p):
+    P = self.model.systems.component_pools
+    P0 = old.self.model.systems.component_pools
+    C = self.agents[a_id].components
+    return (0 <= p and p <= len(C)
+            and same_dict(self.agents, old.self.agents)
+            and all(pool_cut(P, P0, key_at(C, j), C[key_at(C, j)]) for j in range(0, p))
+            and all(pool_same(P, P0, key_at(C, j)) for j in range(p, len(C)))
+            and all(T in C or pool_same(P, P0, T) for T in P0)
+            and all(T in P0 for T in P)
+            and all(T not in P or P[T] is P0[T] for T in P0)
+            and all(P[T1] is not P[T2] for T1 in P for T2 in P if T1 is not T2))
+
+
+contract('Core.Environment.remove_agent',
+         params={'self': 'ref:Environment', 'a_id': 'str'},
+         requires=[Env_rep, env_linked, env_mirror, leaver_ok],
+         ensures={'C04': [env_remove_post, Env_rep], 'C03': [env_remove_pools, env_mirror]},
+         raises={'AgentNotFoundError': dict(when=env_remove_unknown)},
+         modifies=['self.agents', 'self.model.systems.component_pools', 'store:list[ref:Component]'],
+         loops={0: dict(invariant=[(env_remove_inv, ['C03', 'C04'])], index='p',
+                        modifies=['self.model.systems.component_pools', 'store:list[ref:Component]'])},
+         props=['C03', 'C04'])
